@@ -55,7 +55,7 @@ def run(ctx):
             v = res.val
             want = B('SpikeId') if given else Spike
             ctx.check(isinstance(v, Arr) and isinstance(v.elem, Ix) and v.elem.space is want, 'C07.A1', spc, lab + ' values', '%s: groups hold %s' % (lab, 'the supplied spike ids' if given else 'spike indices'),
-                      '%s: groups hold %s' % (lab, v))
+                      '%s: groups hold %s' % (lab, v), value=getattr(v, 'elem', v))
             if isinstance(v, Arr) and v.axes:
                 perm = [s for s in v.axes[0].chain() if s.kind == 'Perm']
                 ctx.check(bool(perm) and perm[0].parent is Spike and isinstance(perm[0].info.get('keyelem'), Ix) and perm[0].info['keyelem'].space is Clu, 'C07.A1', spc, lab + ' order',
@@ -204,7 +204,7 @@ def run(ctx):
     res = S.result(tc, {'self': UNK, tc.params[1]: Ix(Clu)})
     nrep += flush(ctx, S, 'get_template_counts')
     ctx.check(isinstance(res, Arr) and res.axes == (Tmpl,) and isinstance(res.elem, Q) and res.elem.d() == {'cnt': 1}, 'C07.A2', tc, 'get_template_counts',
-              'histogram over all templates of the templates of the cluster\'s spikes', 'get_template_counts returns %s, expected counts over the full template table' % res)
+              'histogram over all templates of the templates of the cluster\'s spikes', 'get_template_counts returns %s, expected counts over the full template table' % res, value=res)
     # ---- A3
     gm = repo.func(AR, 'grouped_mean')
     S = Shape(repo, sigs={k: v for k, v in COMMON_SIGS.items() if k == '_index_of'}, inline_depth=2)
@@ -212,7 +212,7 @@ def run(ctx):
     nrep += flush(ctx, S, 'grouped_mean')
     if isinstance(res, Arr) and isinstance(res.elem, Q):
         ctx.check(res.elem.d() == {'ka': 1}, 'C07.A3', gm, 'grouped_mean dimension', 'grouped_mean is sum / count (dimension of the averaged quantity)',
-                  'grouped_mean has dimension %s: a sum over spikes (count factor) is not a mean' % res.elem)
+                  'grouped_mean has dimension %s: a sum over spikes (count factor) is not a mean' % res.elem, value=getattr(res, 'elem', res))
     else:
         ctx.undecided('C07.A3', gm, 'grouped_mean returns %s' % res)
     PG = Pat(gm)
